@@ -272,6 +272,45 @@ def sites(ctx):
                             if any(isinstance(e, dict) and e.get('f') == 'per_type_lookup' for e in pl.get('p', [])):
                                 reads.append(fn_label(b))
     ctx.ob('SITES', 'lookup-builder-never-reads-lookups', not reads, None, 'PerTypeLookup::new touches a per_type_lookup field: %s' % (reads or 'never'))
+    # no `&mut` into the node storage is live across a call that materialises `&SchemaNode`s of arbitrary nodes (the
+    # lookup builder dereferences each variant's NodeRef - and, for graphs built from nodes, a union may list itself):
+    # a shared reference to a whole node while one of its fields is mutably borrowed is an aliasing violation
+    derefers = node_derefers(f)
+
+    def mentions(x, l):
+        if isinstance(x, dict):
+            if x.get('l') == l and ('p' in x or len(x) == 1):
+                return True
+            return any(mentions(v, l) for v in x.values())
+        if isinstance(x, list):
+            return any(mentions(v, l) for v in x)
+        return False
+    crossing = []
+    n_mut = 0
+    lk = [bb for bb, t in tf.calls() if not tf.is_cleanup(bb) and (t.get('resolved') or t.get('callee')) in derefers]
+    for bb in sorted(tf.live_blocks()):
+        if tf.is_cleanup(bb):
+            continue
+        for si_, s_ in enumerate(tf.stmts(bb)):
+            if 'assign' not in s_ or s_['rv'].get('k') != 'ref' or not s_['rv'].get('mut'):
+                continue
+            pl = s_['rv']['place']
+            if '*' not in pl.get('p', []) or 'self_referential::SchemaNode' not in (tf.local_ty(pl['l']) or '') or not (tf.local_ty(pl['l']) or '').startswith('*'):
+                continue
+            n_mut += 1
+            m = s_['assign']['l']
+            for L in lk:
+                if L != bb and L not in tf.reachable_from(bb):
+                    continue
+                after = tf.reachable_from(tf.term(L)['target'], avoid=[bb]) if L != bb else tf.reachable_from(tf.term(L)['target'], avoid=[])
+                used = [u for u in sorted(after) if not tf.is_cleanup(u) and
+                        (any(mentions(st_, m) for k_, st_ in enumerate(tf.stmts(u)) if not (u == bb and k_ <= si_)) or mentions(tf.term(u), m))]
+                if L == bb:
+                    used = [u for u in used if u != bb]      # (coming round the loop re-creates the borrow first)
+                if used:
+                    crossing.append('%s borrowed at %s is used after the call at %s' % (tf.local_name(m) or '_%d' % m, short_loc(s_.get('span')), short_loc(tf.term(L).get('span'))))
+    ctx.ob('SITES', 'no-mut-borrow-across-lookup-build', bool(lk) and n_mut >= 1 and not crossing, short_loc(tf.span),
+           'mutable borrows into the node storage in freeze: %d; calls that dereference NodeRefs: %d; borrows live across such a call: %s' % (n_mut, len(lk), crossing or 'none'))
     # no NodeRef deref in freeze before the lookup phase; PerTypeLookup::new is called after the init loop finished
     derefs = [fn_label(b) for b in [tf] + f.closures_of(tf) for bb, t in b.calls() if strip_generics(cname(t)).endswith('NodeRef::as_ref') or (strip_generics(cname(t)).endswith('Deref>::deref') and 'NodeRef' in cname(t))]
     ln = [(bb, t) for bb, t in tf.calls() if strip_generics(cname(t)).endswith('PerTypeLookup::new')]
@@ -287,6 +326,32 @@ def sites(ctx):
     # from_static only on true statics: callers are const contexts
     callers = {fn_label(b) for b in f.body_list for bb, t in b.calls() if strip_generics(cname(t)).endswith('NodeRef::from_static')}
     ctx.ob('SITES', 'from_static-callers', callers <= {'object_container_file_encoding::METADATA_SCHEMA'}, None, 'NodeRef::from_static is called from: %s (reviewed: the METADATA_SCHEMA constant)' % sorted(callers))
+
+
+def node_derefers(f, depth=4):
+    """crate functions that (transitively) dereference a NodeRef, i.e. materialise a `&SchemaNode`"""
+    direct = set()
+    calls = {}
+    for b in f.body_list:
+        cs = set()
+        for bb, t in b.calls():
+            c = strip_generics(cname(t))
+            if c.endswith('NodeRef::as_ref') or (c.endswith('Deref>::deref') and 'NodeRef' in cname(t)) or (c.endswith('Deref::deref') and 'NodeRef' in ' '.join(t.get('arg_tys', []))):
+                direct.add(b.id)
+            cs.add(t.get('resolved') or t.get('callee') or '')
+        calls[b.id] = cs
+    out = set(direct)
+    for _ in range(depth):
+        grew = False
+        for bid, cs in calls.items():
+            owner = bid.split('::{closure#')[0]
+            if bid not in out and cs & out:
+                out.add(bid); grew = True
+            if bid in out and owner not in out:
+                out.add(owner); grew = True
+        if not grew:
+            break
+    return out
 
 
 def frozen(ctx):
